@@ -4,7 +4,7 @@ PROPS[pid]["rules"] = [(rule id, floor of decided instances, selector over insta
 Floors are the numbers counted on the tree the rules were written against: a rule that suddenly
 matches fewer sites is a broken check (exit 2), never a silent pass.
 """
-from . import lt, td, pm, hs, ws, tf, ec, se, wf, dp, dt, he, gl, ts, ee, sl, wp, fs, ic, nb, im, rn, mp, sp, ms, cp, sh, st, rh, vo, wi, law, cn, pr, dtr, sa, vx
+from . import lt, td, pm, hs, ws, tf, ec, se, bb, lc, wf, dp, dt, he, gl, ts, ee, sl, wp, fs, ic, nb, im, rn, mp, sp, ms, cp, sh, st, rh, vo, wi, law, cn, pr, dtr, sa, vx
 
 
 def has(*subs):
@@ -64,6 +64,8 @@ RULES = {
     "TF": {"run": tf.run},
     "EC": {"run": ec.run},
     "SE": {"run": se.run},
+    "BB": {"run": bb.run},
+    "LC": {"run": lc.run},
 }
 
 BDD_T = ("BddNode", "BddPtr")
@@ -76,7 +78,7 @@ PROPS = {
                   ("IM", 14, has("IM2", "IM3")), ("HE", 2, has("BddNode:scratch", "BddNode:fields")),
                   ("DT", 7, has("BddPtr", "BottomUpBuilder::or:", "BottomUpBuilder::compose:")),
                   ("FS", 2, has("or_lst", "and_lst")), ("ST", 2, None), ("GL", 1, has("GL6")), ("VO", 14, vo_sel("::bdd::", "var_order")),
-                  ("GL", 6, has("GL1", "GL2", "ite_helper:GL4", "GL5")),
+                  ("GL", 8, has("GL1", "GL2", "ite_helper:GL4", "GL5", "GL8")),
                   ("SH", 5, has("RobddBuilder", "BottomUpBuilder<repr::bdd::BddPtr> for T>::var"))],
         "explanation": "Six structural clauses of BDD operation correctness. (e) the standard-triple normalisation Ite::new "
                        "preserves ite(f,g,h) on every path for every truth assignment (ST: exhaustive abstract interpretation over "
@@ -96,7 +98,7 @@ PROPS = {
                   ("IM", 14, has("IM2", "IM3")), ("HE", 4, has("BinarySDD:scratch", "SddOr:scratch", "BinarySDD:fields", "SddOr:fields")),
                   ("ST", 2, None), ("SH", 1, has("SddPtr> for T>::condition")), ("SA", 12, None), ("VX", 9, None),
                   ("VO", 1, vo_sel("::sdd::", only_label_order=True)),
-                  ("GL", 6, has("GL1", "GL2", "SddPtr> for T>::ite:GL4", "SddPtr> for T>::and:GL4"))],
+                  ("GL", 7, has("GL1", "GL2", "SddPtr> for T>::ite:GL4", "SddPtr> for T>::and:GL4", "AllIteTable:GL8"))],
         "explanation": "Complement coherence of every place the SDD code touches subs/children of a possibly complemented node "
                        "(and_sub_desc, and_prime_desc, and_cartesian, condition, SddPtr::{low,high,neg,is_neg}): operands of "
                        "and/ite/..., elements of result nodes and traversal recursion denote the same thing for a regular and "
@@ -149,8 +151,8 @@ PROPS = {
                        "no externally reachable function is leaky (SP1, interprocedural must-pass-through over the call "
                        "graph); what a BDD traversal descends below is marked, so the short-circuiting clear is complete "
                        "(SP2); memo read/write types agree (SP3). Trusted: unwinding ignored (a panicking user callback leaves "
-                       "scratch set). Not decided: which answer is returned.",
-        "assumptions": ["panics/unwinding are not modelled Added: should an SDD clear_scratch start to short-circuit on its own slot, every SDD traversal must mark each node it descends from (SP2 extended; today the SDD clear descends unconditionally).", "call-graph resolution by rustc Instance::try_resolve; generic trait calls dispatch to all local impls"],
+                       "scratch set). Not decided: which answer is returned. Added: should an SDD clear_scratch start to short-circuit on its own slot, every SDD traversal must mark each node it descends from (SP2 extended; today the SDD clear descends unconditionally).",
+        "assumptions": ["panics/unwinding are not modelled", "call-graph resolution by rustc Instance::try_resolve; generic trait calls dispatch to all local impls"],
     },
     "C11": {
         "level": "other",
@@ -192,25 +194,45 @@ PROPS = {
         "rules": [("DP", 21, has("compile_logical_expr", "compile_plan", "BottomUpPlan::")),
                   ("FS", 10, has("compile_cnf", "or_lst", "and_lst", "from_dtree")), ("DT", 1, has("BottomUpBuilder::or:")),
                   ("SH", 5, has(":CC:")), ("ST", 2, None), ("GL", 1, has("GL6")),
-                  ("CP", 3, has("cond_with_alloc", "condition_essential"))],
+                  ("CP", 3, has("cond_with_alloc", "condition_essential")), ("LC", 1, has("compile_cnf_with_assignments"))],
         "explanation": "Every variant of LogicalExpr and BottomUpPlan is compiled by its namesake operation with operands in "
                        "order, a dtree becomes a conjunction of clause disjunctions of the literal's own label and polarity "
                        "with the empty clause false (DP; none of these arms is executed by the test-suite); empty-formula / "
                        "empty-clause / satisfied-literal shortcuts and accumulator seeds of the CNF compilers (FS); the "
                        "default `or` is De Morgan (DT). Not decided: that clause sorting and merge orders preserve the "
-                       "function (and is AC, which is C01's business).",
+                       "function (and is AC, which is C01's business). Added: compile_cnf_with_assignments treats a literal by its status under the assignment only (satisfied: clause becomes true; falsified: dropped; unassigned: disjoined), checked over all (assignment, polarity) cases (LC).",
     },
     "C09": {
         "level": "other",
         "rules": [("WP", 17, has("unit_prop")), ("TS", 5, has("TS-STK")), ("WI", 1, None), ("PR", 1, has("SATSolver")),
                   ("LT", 2, has("UnitPropagate")), ("PM", 5, has("::get:", "::unset:", "::is_set:", "::lit_implied:", "::lit_neg_implied:")),
-                  ("WS", 32, None), ("TF", 1, None), ("EC", 4, None)],
+                  ("WS", 32, None), ("TF", 1, None), ("EC", 4, None), ("LC", 1, has("UnitPropagate::decide"))],
         "explanation": "Every pos/neg watch-list / occurrence-table access in unit_prop.rs is selected by the polarity of "
                        "the same literal that indexes it, insertions go to the literal's own table, reads keyed by one "
                        "literal use one side (WP); SATSolver::decide pushes exactly one state on non-UNSAT paths and none on "
                        "UNSAT, pop pops one, new leaves two (TS-STK) — the structural half of 'pop restores the previous "
                        "state'. Not decided: soundness and fixpoint of propagation in general, the satisfied flag, hash "
-                       "injectivity. Added: index spaces of the watch scheme - label / clause index / position in a watch list - are respected at all 32 uses (WS); the tautology filter ranges over all pairs because Literal's packed order is polarity-major (TF); clause-length cases of the constructor (EC); the PartialModel queries agree with the two-set definition (PM); watch tables keep their label indexing (LT).",
+                       "injectivity. Added: index spaces of the watch scheme - label / clause index / position in a watch list - are respected at all 32 uses (WS); the tautology filter ranges over all pairs because Literal's packed order is polarity-major (TF); clause-length cases of the constructor (EC); the PartialModel queries agree with the two-set definition (PM); watch tables keep their label indexing (LT). Added: the satisfied-clause scan of decide depends on the literal's status only (LC).",
+    },
+    "C12": {
+        "level": "other",
+        "rules": [("BB", 26, None), ("LAW", 6, has(":join", ":meet", ":choose")),
+                  ("FS", 2, has("marginal_map_eval", "bb_ub")), ("PM", 3, has("::set:", "::get:", "assignment_iter"))],
+        "explanation": "Decides the part of 'returns the optimum and an assignment attaining it' that is in the shape of the three "
+                       "sibling searches (marginal_map_h, meu_h, bb_h), their bound functions and drivers, checked identically on "
+                       "all three (BB1-BB7): value and witness always travel as a pair (leaf, running best, result); the two "
+                       "branch models are cur_assgn+(x=true)/(x=false) for the first remaining variable; each order entry pairs a "
+                       "model with the bound computed for that model over the remaining variables; recursion continues with the "
+                       "running best pair, the remaining variables and the iterated model; a branch is skipped only when its upper "
+                       "bound does not exceed a lower bound; the bound's fold follows assigned variables to the matching child, "
+                       "relaxes exactly the unassigned query variables by max/join of both sides and sums weight-paired children "
+                       "otherwise; assigned query variables are multiplied in with the weight of their polarity; the driver's initial "
+                       "lower bound is the value of the very assignment passed as initial best. join/meet/choose return the larger/"
+                       "smaller element on comparable values (LAW), accumulators start at one (FS), PartialModel set/get follow the "
+                       "two-set definition (PM). NOT decided (and not claimed): that the bound is admissible and the result a true "
+                       "optimum for given floating-point weights, MEU's side conditions on utilities and variable order - numerical "
+                       "facts about run-time values.",
+        "assumptions": ["the weights satisfy the property's stated domain; admissibility of the bound is not analysed"],
     },
     "C13": {
         "level": "other",
@@ -234,21 +256,21 @@ PROPS = {
         "rules": [("EE", 1, None), ("IC", 5, has("repr::cnf::")), ("WP", 2, has("repr::cnf::")),
                   ("FS", 3, has("repr::cnf::", "assignment_weight")), ("CN", 2, None),
                   ("PR", 1, has("CnfHasher")), ("LT", 2, has("CnfHasher")),
-                  ("PM", 9, None), ("HS", 4, None)],
+                  ("PM", 9, None), ("HS", 4, None), ("LC", 1, has("is_sat_partial"))],
         "explanation": "Brute-force counting leaves its enumeration loop only when the assignment iterator is exhausted (EE); "
                        "Cnf's variable count is max label + 1 (IC); the residual hasher's pos/neg tables are selected and "
                        "indexed by the same literal (WP); counting accumulators are seeded with zero/one (FS). Not decided: "
                        "agreement of eval / condition / is_sat_partial / the hasher's 'only then' direction with their "
-                       "definitions. Added: PartialModel set/unset/get/is_set/lit_implied/lit_neg_implied and its constructors/iterators follow the two-set definition (PM, abstract interpretation over membership pairs); CnfHasher::hash skips a satisfied clause entirely, skips a falsified literal, multiplies an unassigned literal's prime and accumulates every clause product (HS); pos_lits/neg_lits keep their label indexing (LT).",
+                       "definitions. Added: PartialModel set/unset/get/is_set/lit_implied/lit_neg_implied and its constructors/iterators follow the two-set definition (PM, abstract interpretation over membership pairs); CnfHasher::hash skips a satisfied clause entirely, skips a falsified literal, multiplies an unassigned literal's prime and accumulates every clause product (HS); pos_lits/neg_lits keep their label indexing (LT). Added: is_sat_partial marks a clause satisfied exactly for a satisfied literal (LC).",
     },
     "C16": {
         "level": "proof",
-        "rules": [("GL", 8, hasnot("GL3", "component-cache", "GL6", "GL7")), ("CP", 2, has("IteTable:compl-flag")), ("ST", 2, None)],
+        "rules": [("GL", 10, hasnot("GL3", "component-cache", "GL6", "GL7")), ("CP", 2, has("IteTable:compl-flag")), ("ST", 2, None)],
         "explanation": "Complete structural argument for the first sentence: Lru::get returns Some(e.val) only under the "
                        "true edge of e.key == key (GL1); insert writes one Element{key,val,hash} of its own arguments into "
                        "the slot that get reads, grow re-inserts whole triples (GL2); the adapter's hash is a function of "
                        "(f,g,h) only (GL5); callers use one key and one hash for lookup and insert (GL4). Not decided: the "
-                       "consequence for builder results (needs C01).",
+                       "consequence for builder results (needs C01). Added: each ITE table files a result under the very key it looks it up by, for both Ite variants (GL8).",
     },
     "C17": {
         "level": "other",
@@ -257,7 +279,7 @@ PROPS = {
         "explanation": "The s-expression translation and the vtree mirror map each variant to its namesake with children in "
                        "order (DP); DIMACS signs map Neg to false and Pos to true in both parsers (DP); the CNF parser "
                        "subtracts one from the 1-based DIMACS variable (IC OneBased -> Index). Not decided: model-level "
-                       "equality of parsed formulas; JSON well-formedness (serde).",
+                       "equality of parsed formulas; JSON well-formedness (serde). Added: in the s-expression parser every special case of a negated operand still denotes the negation (Not(Not e) may only shortcut to e).",
     },
     "C18": {
         "level": "proof",
@@ -273,7 +295,8 @@ PROPS = {
     },
     "C19": {
         "level": "other",
-        "rules": [("MP", 6, None), ("SL", 7, None), ("CP", 3, has("ser_bdd")), ("VO", 2, has("var_at_level"))],
+        "rules": [("MP", 6, None), ("SL", 7, None), ("CP", 3, has("ser_bdd")), ("VO", 2, has("var_at_level")),
+                  ("CN", 1, has("dedup")), ("DP", 2, has("from_dimacs:sign"))],
         "explanation": "In each tool the counted / serialised diagram is the compiled one, compiled on a builder whose order "
                        "comes from the same formula; counts are taken on smooth(_, num_vars); weights are keyed by the "
                        "expression's own variable mapping (MP, SL2). Not decided: the printed numbers.",
